@@ -764,7 +764,9 @@ class World(object):
                 # the attempt reported after the workflow stopped being active: not retried (by
                 # design); a later rerun continues from this attempt's failure handling
                 self.retry_cut = True
-            if ra is not None and ra[0] == "fault":
+            if ra is not None and ra[0] == "fault" and wfb in ("running", "resuming", "pausing", "canceling",
+                                                               "requested", "scheduled", "delayed"):
+                # (the retry condition is only evaluated while the workflow is active)
                 L.runtime_errors.append((x.xid, "retry"))
         L.on_completed(x, obs, result, wfb)
         if x.items is not None and nctx_before is not None and x.items.get("n"):
@@ -1278,7 +1280,7 @@ class World(object):
 
     def check_data_fault(self):
         """C11 (a): an expression of the definition that fails on the delivered data."""
-        f = self.p.get("_fault")
+        f = self.p.get("fault_info")
         if not f or self.snap is None:
             return
         L = self.ledger
